@@ -15,11 +15,15 @@
 package event
 
 import (
+	"errors"
+
 	"github.com/emitter-io/emitter/internal/message"
 	"github.com/emitter-io/emitter/internal/security"
 	"github.com/kelindar/binary"
 	"github.com/kelindar/binary/nocopy"
 )
+
+var errInvalidKey = errors.New("event: key is too short")
 
 // Various replicated event types.
 const (
@@ -81,6 +85,10 @@ func decodeSubscription(k string, v []byte) (e Subscription, err error) {
 
 	// Decode the key
 	buffer := binary.ToBytes(k)
+	if len(buffer) < 16 {
+		return e, errInvalidKey
+	}
+
 	e.Peer = binary.BigEndian.Uint64(buffer[0:8])
 	e.Conn = security.ID(binary.BigEndian.Uint64(buffer[8:16]))
 	e.Ssid = make(message.Ssid, (len(buffer)-16)/4)
@@ -158,6 +166,10 @@ func decodeConnection(k string, v []byte) (e Connection, err error) {
 
 	// Decode the key
 	buffer := binary.ToBytes(k)
+	if len(buffer) < 16 {
+		return e, errInvalidKey
+	}
+
 	e.Peer = binary.BigEndian.Uint64(buffer[0:8])
 	e.Conn = security.ID(binary.BigEndian.Uint64(buffer[8:16]))
 	return e, err
